@@ -716,6 +716,13 @@ def check_history_oracle(case):
     why = check_array("result of the constructor", cur, model, name, unit)
     if why:
         return why
+    npidx = bool(case.get("npidx"))
+
+    def key(i):
+        if npidx:
+            import numpy as np
+            return np.int64(i)
+        return i
     for step, op in enumerate(case["ops"]):
         t = op[0]
         n = len(model)
@@ -734,13 +741,13 @@ def check_history_oracle(case):
                         continue
                     obj, pairs = o_operand_build(op[2])
                     new_model = model[:i] + pairs + model[i:]
-                    res_ = cur.insert(op[1], obj)
+                    res_ = cur.insert(key(op[1]), obj)
                 elif t == "delete":
                     i = norm(op[1], n, False)
                     if i is None:
                         continue
                     new_model = model[:i] + model[i + 1:]
-                    res_ = cur.delete(op[1])
+                    res_ = cur.delete(key(op[1]))
                 elif t == "set":
                     i = norm(op[1], n, False)
                     if i is None:
@@ -748,12 +755,12 @@ def check_history_oracle(case):
                     if op[2][0] == "num":
                         new_model = list(model)
                         new_model[i] = (frac(op[2][1]), model[i][1])
-                        cur[op[1]] = op[2][1]
+                        cur[key(op[1])] = op[2][1]
                     else:
                         obj, pair = o_item_build(op[2])
                         new_model = list(model)
                         new_model[i] = pair
-                        cur[op[1]] = obj
+                        cur[key(op[1])] = obj
                     res_ = cur
                 else:
                     raise ValueError(op)
@@ -818,7 +825,10 @@ def gen_oracle_case(rng):
             if n == 0:
                 continue
             ops.append(["set", rng.randrange(-n, n), gen_oracle_item(rng)])
-    return {"init": init, "ops": ops}
+    case = {"init": init, "ops": ops}
+    if rng.random() < 0.2:
+        case["npidx"] = True        # the same indices as numpy integers
+    return case
 
 
 def operand_len(o):
@@ -884,13 +894,20 @@ def session_to_oracle_cases(ops):
 def shrink_case(case):
     def fails(ops):
         return check_history_oracle({"init": case["init"], "ops": ops}) is not None
+    extra = {"npidx": True} if case.get("npidx") else {}
+
+    def fails(ops):  # noqa
+        return check_history_oracle(dict(extra, init=case["init"], ops=ops)) is not None
     ops = shrink_list(case["ops"], fails)
-    small = {"init": case["init"], "ops": ops}
+    small = dict(extra, init=case["init"], ops=ops)
+    if extra and check_history_oracle({"init": case["init"], "ops": ops}) is not None:
+        extra = {}
+        small = {"init": case["init"], "ops": ops}
     # try a simpler initial array
     for init in ([[1, 2], ["common", 0.5], case["init"][2], case["init"][3]],
                  [case["init"][0], case["init"][1], case["init"][2], ""],
                  [[1, 2], ["common", 0.5], case["init"][2], ""]):
-        cand = {"init": init, "ops": ops}
+        cand = dict(extra, init=init, ops=ops)
         try:
             if check_history_oracle(cand) is not None:
                 small = cand
